@@ -104,7 +104,7 @@ fn main() {
                 std::panic::catch_unwind(|| d.div_f64(small)).map(|d| sd(Ok(d))).unwrap_or_else(|_| "panic".into()),
             );
             evals += 6;
-            let _ = writeln!(log, "{}", line);
+            let _ = log.write_all(&fnv(&line).to_le_bytes());
             if case.is_some() && i + 1 == n {
                 println!("{}", line);
                 return;
@@ -158,7 +158,7 @@ fn main() {
             Err(_) => "Err".to_string(),
         };
         let line = format!("{}\t{}\t{}\t{}\t{:?}\t{:?}\t{}\t{:?}\t{}\t{}", i, span, if kind == 2 { zoned.as_ref().map(|z| z.to_string()).unwrap_or_default() } else if kind == 1 { dt.to_string() } else { date.to_string() }, kind, smallest, largest, inc, mode, rs, ts);
-        let _ = writeln!(log, "{}", line);
+        let _ = log.write_all(&fnv(&line).to_le_bytes());
         if case.is_some() && i + 1 == n {
             println!("{}", line);
             return;
@@ -167,6 +167,15 @@ fn main() {
     let _ = log.flush();
     let _ = Timestamp::UNIX_EPOCH;
     finish(&out, "c11", &flavour, seed, si, sn, evals, n, errs);
+}
+
+/// The recorded log holds one 64-bit hash per case (the line itself is reproduced by `--case`).
+fn fnv(s: &str) -> u64 {
+    let mut h = 0xcbf29ce484222325u64;
+    for b in s.bytes() {
+        h = (h ^ b as u64).wrapping_mul(0x100000001b3);
+    }
+    h
 }
 
 fn gen_f64(r: &mut Rng) -> f64 {
